@@ -43,6 +43,11 @@ def plugin_case(ctx: Ctx, cfg: Dict[str, Any], suite: str = "fsize_limit_plugin"
         return
     for r in res:
         ctx.count("fsize.plugin." + r["outcome"].split(":")[0])
+        if ctx.driver and r["n"] <= 300000:
+            m = ctx.driver.call({"op": "fs_write_limit", "limit": cfg["limit"], "n": r["n"]})
+            real = {"outcome": r["outcome"].split(":")[0], "file_size": r["file_size"], "content_ok": bool(r["content_ok"])}
+            if real != {k: m.get(k) for k in real}:
+                ctx.disagree("fs_write_limit", inp, real, m, "plugin write under a file-size limit differs from the short-write model")
         if r["outcome"] == "returned" and not r["content_ok"]:
             ctx.fail("short-write-reported-as-complete",
                      f"FSStoragePlugin.write of {r['n']} bytes ({r['kind']}) returned normally under a file-size limit of {cfg['limit']}, "
